@@ -19,6 +19,7 @@ type PairCase struct {
 	OldNil bool        `json:"old_nil,omitempty"` // pass a nil old tree (C06)
 	StopAt int         `json:"stop_at"`           // callback stops at this index (-1 never)
 	StopErr bool       `json:"stop_err,omitempty"` // ... by returning an error instead of false
+	StopKeep bool      `json:"stop_keep,omitempty"` // the keepGoing flag returned together with the error
 }
 
 var pairBaseWeights = core.OpWeights{
@@ -32,8 +33,10 @@ func genPair(t *rapid.T, tier string, o core.GenOpts, persistedOnly bool) PairCa
 	c := PairCase{Cfg: core.GenConfig(t, tier, o)}
 	pool := len(c.Cfg.Pool())
 	c.Base = append(core.GenFill(t, pool, pool), core.GenProgram(t, pairBaseWeights, 25, 1)...)
-	c.Mode = rapid.SampledFrom([]string{"clone", "reload", "reload", "unrelated", "unrelated", "same"}).Draw(t, "mode")
+	c.Mode = rapid.SampledFrom([]string{"clone", "reload", "reload", "unrelated", "unrelated", "otherstore", "same"}).Draw(t, "mode")
 	switch c.Mode {
+	case "otherstore":
+		c.Delta = append(core.GenFill(t, pool, pool), core.GenProgram(t, pairBaseWeights, 25, 1)...)
 	case "clone", "reload":
 		c.Delta = core.GenProgram(t, pairDeltaWeights, 12, 1)
 		if rapid.IntRange(0, 5).Draw(t, "nodelta") == 0 {
@@ -53,6 +56,7 @@ func genPair(t *rapid.T, tier string, o core.GenOpts, persistedOnly bool) PairCa
 }
 
 type pair struct {
+	wNew       *core.World // the world (store, cache) of the new tree; == w unless mode is "otherstore"
 	w          *core.World
 	old, new   *core.Tree
 	oldSR      *core.SavedRoot // when persisted
@@ -78,7 +82,7 @@ func buildPair(c PairCase, o *run.Obs) (*pair, bool) {
 	if !runOps(m, c.Base) {
 		return nil, false
 	}
-	p := &pair{w: w, old: m.Slots[0]}
+	p := &pair{w: w, wNew: w, old: m.Slots[0]}
 	switch c.Mode {
 	case "same":
 		cl, err := w.Clone(p.old)
@@ -110,6 +114,17 @@ func buildPair(c PairCase, o *run.Obs) (*pair, bool) {
 			return nil, false
 		}
 		p.new = m2.Slots[0]
+	case "otherstore": // unrelated history in a store and cache of its own (e.g. a replica)
+		p.wNew = core.NewWorld(c.Cfg)
+		p.wNew.Store.Prefix = "mem://other-store"
+		m2, err := core.NewMachine(p.wNew, 1)
+		if err != nil {
+			return nil, false
+		}
+		if !runOps(m2, c.Delta) {
+			return nil, false
+		}
+		p.new = m2.Slots[0]
 	default: // unrelated
 		m2, err := core.NewMachine(w, 1)
 		if err != nil {
@@ -120,7 +135,7 @@ func buildPair(c PairCase, o *run.Obs) (*pair, bool) {
 		}
 		p.new = m2.Slots[0]
 	}
-	settle := func(t *core.Tree, res string) (*core.Tree, *core.SavedRoot, bool) {
+	settle := func(w *core.World, t *core.Tree, res string) (*core.Tree, *core.SavedRoot, bool) {
 		switch res {
 		case "persisted", "reloaded":
 			sr, err := w.Persist(t)
@@ -139,10 +154,10 @@ func buildPair(c PairCase, o *run.Obs) (*pair, bool) {
 		return t, nil, true
 	}
 	var ok bool
-	if p.old, p.oldSR, ok = settle(p.old, c.OldRes); !ok {
+	if p.old, p.oldSR, ok = settle(w, p.old, c.OldRes); !ok {
 		return nil, false
 	}
-	if p.new, p.newSR, ok = settle(p.new, c.NewRes); !ok {
+	if p.new, p.newSR, ok = settle(p.wNew, p.new, c.NewRes); !ok {
 		return nil, false
 	}
 	return p, true
